@@ -22,7 +22,7 @@ SPECS = {
     'C12': [('abacusnbody/hod/abacus_hod.py', ['_searchsorted_parallel'])],
     'C13': [(PS, ['calc_power', 'get_field', 'get_field_fft', 'get_interlaced_field_fft', 'shift_field_fft',
                   'get_W_compensated', 'normalize_field', 'get_raw_power', 'calc_pk_from_deltak', '_normalize'])],
-    'C14': [('abacusnbody/data/asdf.py', ['BloscCompressor.compress', 'BloscCompressor.decompress'])],
+    'C14': [('abacusnbody/data/asdf.py', ['BloscCompressor.compress'])],   # decompress is translated (tools/gen/c14.py)
     'C15': [('abacusnbody/data/pack9.py', ['unpack_pack9', '_unpack_pack9', '_expand_to_short'])],
     'C16': [('abacusnbody/data/read_abacus.py', ['read_asdf', '_resolve_columns'])],
     'C17': [(TSC, ['partition_parallel'])],
